@@ -465,7 +465,8 @@ def _lp_default(LP):
 SKIP = frozenset({"_io", "_parent", "_root", "log_instance", "_log", "_debug"})
 
 
-def run_op(name):
+def run_op(name, keep=False):
+    """keep=True: the result object is handed back untouched (4th element) instead of being overwritten"""
     make_args, call, flags = OPS[name]
     args = make_args()
     before = h(canon(args, skip=SKIP))
@@ -489,8 +490,42 @@ def run_op(name):
                     short += "|CHANGED-BY-LOOKING"
             except Exception:  # noqa: BLE001
                 pass
+        if keep:
+            return rd, ok, short, res
         scribble(res)
+    if keep:
+        return rd, ok, short, res
     return rd, ok, short
+
+
+def run_after_kept(j, kept_obj, kept_digest):
+    """in a forked child: (1) op j while the caller still holds the untouched result of the first op -- that result must not change;
+    (2) the caller overwrites the kept result in place, then op j again.  Both runs of j are returned."""
+    r, w = os.pipe()
+    pid = os.fork()
+    if pid == 0:
+        try:
+            os.close(r)
+            first = run_op(j)
+            intact = True
+            if kept_obj is not None:
+                try:
+                    intact = h(canon(kept_obj, skip=SKIP)) == kept_digest
+                except Exception:  # noqa: BLE001
+                    intact = False
+                scribble(kept_obj)
+            second = run_op(j)
+            data = pickle.dumps((first, second, intact))
+        except BaseException as e:  # noqa: BLE001
+            data = pickle.dumps((("CHILD-CRASH:" + repr(e), False, "crash"), ("CHILD-CRASH:" + repr(e), False, "crash"), True))
+        with os.fdopen(w, "wb") as f:
+            f.write(data)
+        os._exit(0)
+    os.close(w)
+    with os.fdopen(r, "rb") as f:
+        data = f.read()
+    os.waitpid(pid, 0)
+    return pickle.loads(data)
 
 
 def why(short, name):
@@ -574,21 +609,27 @@ def w_pairs_from(first):
         try:
             os.close(r)
             acc = Acc()
-            res_i = run_op(first)
+            res_i = run_op(first, keep=True)
+            kept = res_i[3] if not isinstance(res_i[3], (bytes, int, str, bool, float, type(None))) else None
             if not res_i[1]:
                 acc.violation(why(res_i[2], first)[0], {"sequence": [first]}, why(res_i[2], first)[1])
             for j in OPS:
-                res = run_sequence_isolated([j])  # forked from this child: state = after `first`
+                # forked from this child: state = after `first`, whose result the caller still holds
+                r1, r2, intact = run_after_kept(j, kept, res_i[0])
                 case = {"sequence": [first, j]}
-                if len(res) != 1 or str(res[0][0]).startswith("CHILD-CRASH"):
-                    acc.violation("child_crashed", {**case, "detail": str(res[0][0])[:200]})
+                if str(r1[0]).startswith("CHILD-CRASH"):
+                    acc.violation("child_crashed", {**case, "detail": str(r1[0])[:200]})
                 else:
-                    if not res[0][1]:
-                        acc.violation(why(res[0][2], j)[0], case, why(res[0][2], j)[1])
-                    if res[0][0] != FRESH[j][0]:
-                        acc.violation(f"result_depends_on_history:{j}", {**case, "fresh": FRESH[j][2], "after_history": res[0][2]},
-                                      f"{j} returns a different result after {[first]} than in a fresh interpreter state")
-                acc.case(nontrivial=True, calls=2, outcome=res[0][2] if res else "crash", sample=case if len(acc.samples) < 1 else None)
+                    if not intact:
+                        acc.violation(f"earlier_result_changed_by_a_later_call:{first}", case,
+                                      f"the object {first} returned (kept, untouched by the caller) is different after {j}")
+                    for k_, rr in (("", r1), ("_after_caller_overwrote_the_first_result", r2)):
+                        if not rr[1]:
+                            acc.violation(why(rr[2], j)[0], case, why(rr[2], j)[1])
+                        if rr[0] != FRESH[j][0]:
+                            acc.violation(f"result_depends_on_history{k_}:{j}", {**case, "fresh": FRESH[j][2], "after_history": rr[2]},
+                                          f"{j} returns a different result after {[first]} than in a fresh interpreter state")
+                acc.case(nontrivial=True, calls=3, outcome=r1[2], sample=case if len(acc.samples) < 1 else None)
             data = pickle.dumps(acc)
         except BaseException as e:  # noqa: BLE001
             a2 = Acc()
@@ -721,6 +762,13 @@ def replay(doc):
     bad = 0
     for c in doc.get("cases", []):
         seq = c.get("sequence") or [c.get("op")]
+        if "earlier_result_changed" in doc.get("sig", "") and len(seq) == 2:
+            rd, ok, short, obj = run_op(seq[0], keep=True)
+            run_op(seq[1])
+            same = h(canon(obj, skip=SKIP)) == rd
+            print("  sequence", seq, "-> result of", seq[0], "kept by the caller is", "UNCHANGED" if same else "DIFFERENT", "after", seq[1])
+            bad += 0 if same else 1
+            continue
         fresh = run_sequence_isolated([seq[-1]])[0]
         res = run_sequence_isolated(seq)
         print("  sequence", seq, "->", [(r[2], "args ok" if r[1] else "ARGS MODIFIED") for r in res], "| fresh:", fresh[2],
